@@ -119,16 +119,18 @@ func (c *Conversation) processDataMessageWithRawErrors(header, msg []byte) (plai
 		return
 	}
 
-	if err = c.keys.checkMessageCounter(dataMessage); err != nil {
-		return
-	}
-
 	sessionKeys, err := c.keys.calculateDHSessionKeys(dataMessage.recipientKeyID, dataMessage.senderKeyID, c.version)
 	if err != nil {
 		return
 	}
 
 	if err = dataMessage.checkSign(sessionKeys.receivingMACKey, header, c.version); err != nil {
+		return
+	}
+
+	// The counter can only be trusted, and remembered, once the message has
+	// been authenticated - otherwise anyone can make us reject genuine messages
+	if err = c.keys.checkMessageCounter(dataMessage); err != nil {
 		return
 	}
 
